@@ -255,7 +255,10 @@ class Gen:
                 c = r.choice(self.usable_classes)
                 self.use('class_use')
                 o = self.fresh('o')
-                out.append('%s%s = %s(%s)' % (ind, o, c['name'], ', '.join(self.expr(t, env, 1) for _, t in c['cparams'])))
+                if c.get('factory') and r.random() < .5:
+                    out.append('%s%s = %s(%s)' % (ind, o, c['factory'], self.expr(INT, env, 1)))
+                else:
+                    out.append('%s%s = %s(%s)' % (ind, o, c['name'], ', '.join(self.expr(t, env, 1) for _, t in c['cparams'])))
                 if c['methods']:
                     mname, params, rt = r.choice(c['methods'])
                     v = self.fresh('r')
@@ -451,6 +454,14 @@ class Gen:
             self.use('method')
         self.classes.append(dict(name=cname, fields=fields, cparams=cparams, methods=methods))
         self.usable_classes.append(self.classes[-1])
+        if self.opts['ext'] and r.random() < .6:
+            # a factory function returning an instance (its name is an ordinary user identifier)
+            mk = self.fresh('mk')
+            q = self.fresh('p')
+            out.append('')
+            out.append('def %s(%s: int) -> %s:' % (mk, q, cname))
+            out.append('\treturn %s(%s)' % (cname, ', '.join(q if t == INT else self.lit(t) for t in fields.values())))
+            self.classes[-1]['factory'] = mk
         return out
 
     def enum(self) -> list[str]:
@@ -530,7 +541,7 @@ def gen_modules(rnd: random.Random, n: int = 2, pkg: str = 'genpkg', opts: dict 
         g.uid = uid
         deps = [e for e in exported if rnd.random() < .6] if exported else []
         for mod, funcs, classes in deps:
-            names = [f[0] for f in funcs] + [c['name'] for c in classes]
+            names = [f[0] for f in funcs] + [c['name'] for c in classes] + [c['factory'] for c in classes if c.get('factory')]
             if names:
                 g.header.append('from %s import %s' % (mod, ', '.join(names)))
                 g.funcs.extend(funcs)
